@@ -13,3 +13,4 @@ for d in /verif/seeded/*/; do
   if [ $rc -eq 1 ]; then echo "$id ($prop $tier): CAUGHT  $classes"; else echo "$id ($prop $tier): MISSED (exit $rc)"; fi
 done
 rm -rf /verif/replays
+git -C /verif checkout -q -- evidence 2>/dev/null  # evidence written by runs against a changed tree is not evidence
